@@ -82,17 +82,23 @@ CHECKS = {
    text="Provenance: every draw of every toqito.rand function comes from one default_rng(seed) built from its own seed argument and nothing touches the global state. Validity for arbitrary draws: density "
         "matrices as HH^dagger/Tr of a dim x k factor, unitaries / bases under the QR contract, PSD operators, state vectors as normalised sums of k product terms, POVMs summing to the identity, circulant Gram matrices; "
         "measure(): Born rule, post-states, completeness guard; pretty good / bad measurements sum to the identity under the inverse-square-root contract. The Bures branch's rank bound is a recorded known finding."),
+ "C07": dict(engine="symnp + sdpcap", category="other", design_ref="DESIGN.md §3 C07, §2.2",
+   technique="symbolic execution of classical_value / constructors on solver-backed scalars (z3); certificates on the captured cvxpy programs (real npa_constraints, nonsignaling_value, see-saw) proved in z3 with the answer functions / boxes / decision variables as symbols",
+   note=NOTE_E1 + "; cvxpy evaluation trusted for extraction; v v^T and principal submatrices of PSD matrices are PSD and traces of PSD matrices are >= 0 (mathematical facts used by the certificates); the conic solver returns the optimum of the program it is handed",
+   text="Classical value = max over all pairs of answer functions for every prob/pred tensor of the enumerated shapes (all entries symbolic), game object unchanged; product and BCS constructors; "
+        "for every game of the listed shapes: every deterministic strategy is a feasible point of the real NPA program with its own value (classical <= NPA_k, k in 1,'1+ab',2), higher-level equalities "
+        "imply lower-level ones (NPA monotone in k), NPA constraints imply a non-signalling box and nonsignaling_value's program is the LP over such boxes (NPA <= NS <= 1); see-saw programs are the textbook POVM optimisations."),
 }
 NOT_BUILT = "check not built yet in this round (planned per DESIGN.md §3); nothing is claimed"
 NA = {f"C{i:02d}": NOT_BUILT for i in range(1, 21) if f"C{i:02d}" not in CHECKS}
 
 ENGINES = [
- {"name": "symnp", "path": "symnp/", "serves_properties": [k for k, v in CHECKS.items() if v["engine"] == "symnp"],
+ {"name": "symnp", "path": "symnp/", "serves_properties": [k for k, v in CHECKS.items() if "symnp" in v["engine"]],
   "kind_free_text": "E1: symbolic execution of the real numpy code on object arrays of z3-backed scalars (polynomial normal form, monomial abstraction), decision-replay path exploration, z3 discharge, numeric replay"},
- {"name": "sdpcap", "path": "sdpcap/", "serves_properties": [k for k, v in CHECKS.items() if v["engine"] == "sdpcap"],
+ {"name": "sdpcap", "path": "sdpcap/", "serves_properties": [k for k, v in CHECKS.items() if "sdpcap" in v["engine"]],
   "kind_free_text": "E2: capture of the cvxpy/picos program the real code builds, exact affine extraction on a basis, z3 obligations T1/T2/T3"},
 ]
-NOTES = ("fix: commits in /repo: cb7d15f, 497f2e2 (C01), 03de9a5, c7b010c (C06), b47dfd5 (C10), 897b7c3 (C11), cb4fb7c (C12), 73fd273, 0d7cc36 (C20), fbaafd8 (C13), c89db21, 7c812ba (C14), 4335272, b792854, 75fd335 (C16), b37e413, 80f67c2, 99d5db9 (C18), c68bb85 (C19); see known_findings.json 'fixed'. "
+NOTES = ("fix: commits in /repo: cb7d15f, 497f2e2 (C01), 03de9a5, c7b010c (C06), b47dfd5 (C10), 897b7c3 (C11), cb4fb7c (C12), 73fd273, 0d7cc36 (C20), fbaafd8 (C13), c89db21, 7c812ba (C14), 4335272, b792854, 75fd335 (C16), b37e413, 80f67c2, 99d5db9 (C18), c68bb85 (C19), 1c22b69 (C07); see known_findings.json 'fixed'. "
          "Exit codes: 0 held / 1 VIOLATION (reproduced on the real code) / 2 harness error.")
 
 checks = []
